@@ -272,7 +272,7 @@ def run_shard(ctx):
     for i in range(ctx.share({"quick": 260, "thorough": 6000}[ctx.tier])):
         n = rng.choice([3, 4, 4, 5, 5])
         gd = gg.random_admg(rng, n, hostile=rng.choice(["onedistrict", "bichain", "bow", "none", "multidistrict", "bionly",
-                                                         "isolated", "names_unsorted"]))
+                                                         "isolated", "names_unsorted", "names_prefixed"]))
         hostile[gd["hostile"]] = hostile.get(gd["hostile"], 0) + 1
         run_graph(ctx, gd, rng, K)
     ctx.extras["hostile_classes"] = hostile
